@@ -441,11 +441,10 @@ def blank_or_comment_before_header(call):
     return any((x == "" and i not in o["skip"]) or (o["comment"] and x.startswith("#")) for i, x in enumerate(lines))
 
 
-def opts_class(call):
+def opts_class(call, clause=""):
     """input class of a reader-option case (never concrete numbers).  Two classes are root causes of their own:
     the top of the file split across blocks, and a blank / comment line before the header line."""
     o = call["o"]
-    body = bytes(call["text"]).decode().split("\n")[call["expect"]["toplines"]:]
     if not covered(call):
         return "top-of-file-split-across-blocks"
     if o["comment"] and (o["skip"] or o["hdr"] > 0):
@@ -454,7 +453,9 @@ def opts_class(call):
         return "blank-or-comment-line-before-header"
     if o["sf"] == "list" and o["hdr"] > 0:
         return "skiprows-list-with-header-row"
-    if o["hdr"] == -2 and not o["names"] and any(x == "" or (o["comment"] and x.startswith("#")) for x in body[:-1]):
+    if o["hdr"] == -2 and not o["names"] and clause == "Raised":
+        # no header line to put in front: a later block that is empty (blocksize below the line length) or holds only
+        # blank / comment lines is handed to pandas as it is -> EmptyDataError
         return "header-None-later-block-without-data"
     hdr = {-1: "infer", -2: "None", 0: "0"}.get(o["hdr"], "k>0")
     lines = bytes(call["text"]).decode().split("\n")
@@ -474,7 +475,7 @@ def classify(call, clauses, obs=None):
     order = ["Rows", "ReadBack", "Files", "Header", "Raised", "ErrorExpected"]
     clause = sorted(clauses, key=lambda c: order.index(c) if c in order else 99)[0]
     if call["kind"] == "opts":
-        oc = opts_class(call)
+        oc = opts_class(call, clause)
         return "opts:%s" % oc if "=" not in oc else "opts:%s:%s" % (clause, oc)
     if call["kind"] == "blocks":
         feat = text_feature(call["text"])
